@@ -165,18 +165,26 @@ PoolChecks(e, st, P, u, tiph) ==
        \cup {Bad(e, "C14", "pooled-transaction-invalid-against-ledger:" \o id) : id \in stale}
        \cup {Bad(e, "C14", "unspent-output-locked-by-no-pooled-transaction:" \o n) : n \in locked}
 
-WalletChecks(e, st, u, tiph, wc) ==
+(* the payload of an NFT (the slip between two bound slips of one transaction) is held by the wallet as *)
+(* part of the NFT, not as spendable money                                                            *)
+NftPayloads(BB) ==
+    UNION {UNION {{t.outs[i].o : i \in {j \in 2..(Len(t.outs) - 1) : t.outs[j - 1].kind = KBound /\ t.outs[j + 1].kind = KBound}}
+                  : t \in Rng(BB[lab].txs)} : lab \in DOMAIN BB}
+
+WalletChecksIn(e, st, u, tiph, wc, BB) ==
     LET G == env.g
         w == st.wallet
         listed == {x \in Rng(w.slips) : x.o \in Rng(w.unspent)}
         sum == SumSet({[o |-> x.o, amt |-> T3(x.amt)] : x \in listed})
-        mine == {x.o : x \in {y \in u : y.owner = env.nodekey /\ y.kind # KBound /\ y.bh + G >= tiph}}
+        mine == {x.o : x \in {y \in u : y.owner = env.nodekey /\ y.kind # KBound /\ y.bh + G >= tiph}} \ NftPayloads(BB)
     IN (IF ~LimbEq(sum, T3(w.balance)) THEN {Bad(e, "C19", "balance-differs-from-unspent-sum")} ELSE {})
        \* wc: outputs the wallet has committed to transactions it built since it was started (a transaction that left
        \* the node's pool may still confirm elsewhere: the wallet keeps its inputs committed)
        \cup (IF env.reorgs = 0 /\ w.pending = 0 /\ Rng(w.unspent) # mine \ wc
              THEN {Bad(e, "C19", IF wc = {} THEN "wallet-unspent-differs-from-ledger" ELSE "wallet-unspent-differs-from-ledger-minus-committed")}
              ELSE {})
+
+WalletChecks(e, st, u, tiph, wc) == WalletChecksIn(e, st, u, tiph, wc, B)
 
 (* a payment built by the node's own wallet: distinct existing inputs of its own key, outputs not exceeding *)
 (* inputs, valid against the ledger it was built on - and therefore accepted by the node's own pool        *)
@@ -233,7 +241,7 @@ OnBlock(e) ==
                               !.detached = @ \/ (T.tip \in DOMAIN BB /\ ~LcMatches(e.st.lc, PathTo(BB, T.tip), T.tiph, env.g))]
        /\ bad' = bad \cup BlockChecks(e, BB, UU)
                      \cup (IF IsPanic(e.res) THEN {} ELSE PoolChecks(e, e.st, P2, T.utxo, T.tiph))
-                     \cup (IF IsPanic(e.res) THEN {} ELSE WalletChecks(e, e.st, T.utxo, T.tiph, env.wc))
+                     \cup (IF IsPanic(e.res) THEN {} ELSE WalletChecksIn(e, e.st, T.utxo, T.tiph, env.wc, BB))
 
 OnSubmit(e) ==
     LET t == Tx(e.tx)
@@ -332,6 +340,7 @@ TraceNext ==
          [] e.ev = "Bundle" -> OnBundle(e)
          [] e.ev = "Needed" -> OnNeeded(e)
          [] e.ev = "WalletTx" -> OnWalletTx(e)
+         [] e.ev = "Nft" -> OnWalletTx(e)
          [] e.ev = "Restart" -> OnRestart(e)
          [] e.ev = "Crash" -> OnCrash(e)
          [] OTHER -> UNCHANGED <<bad, B, U, obs, pool, env>>
